@@ -225,7 +225,8 @@ def cmd_run(pid, tier, keep=False):
         procs = min(b.get("procs", 1), ncpu)
         for i in range(procs):
             tag = "%s-%d" % (c["name"], i)
-            seed = base * 100003 + ci * 1009 + i + 1
+            # rapid derives the k-th case from seed + k(k+1)/2: keep the processes' seeds far apart
+            seed = base * 1000000007 + ci * 10000019 + (i + 1) * 100003
             e = mkenv(tag)
             e["VERIF_SHARD"] = str(i)
             e["VERIF_SHARDS"] = str(procs)
